@@ -78,6 +78,29 @@ fn check_ds<D: MutableDataset + Dataset + Default>(name: &str, hist: &[(bool, Q)
                 (Some(s), Some(p), Some(o), Some(g)) => run!([s], [p], [o], [g]),
             }
         }
+        // other read paths: contains() for every quad of the universe, and the term enumerations (as sets: the API
+        // allows an enumeration of terms to repeat a term)
+        {
+            for x in quads() {
+                let c = d.contains(term(x.1), term(x.2), term(x.3), gname(x.0)).unwrap();
+                if c != oracle.contains(&x) { fail(name, &hist[..=n], format!("contains({:?}) = {} expected {}", x, c, oracle.contains(&x))); }
+            }
+            if d.contains(unknown(), term(1), term(1), gname(0)).unwrap() { fail(name, &hist[..=n], "contains(unknown term) is true".into()); }
+            macro_rules! en { ($what:expr, $it:expr, $want:expr) => {{
+                let got: Vec<usize> = $it.map(|t| tnum(&t.unwrap().as_simple())).collect();
+                let gs: BTreeSet<usize> = got.iter().cloned().collect();
+                let want: BTreeSet<usize> = $want;
+                if gs != want { fail(name, &hist[..=n], format!("{} = {:?} expected the set {:?}", $what, got, want)); }
+            }}}
+            en!("subjects()", d.subjects(), oracle.iter().map(|x| x.1).collect());
+            en!("predicates()", d.predicates(), oracle.iter().map(|x| x.2).collect());
+            en!("objects()", d.objects(), oracle.iter().map(|x| x.3).collect());
+            en!("graph_names()", d.graph_names(), oracle.iter().filter(|x| x.0 != 0).map(|x| x.0).collect());
+            en!("iris()", d.iris(), oracle.iter().flat_map(|x| [x.0, x.1, x.2, x.3]).filter(|k| *k == 1).collect());
+            en!("blank_nodes()", d.blank_nodes(), oracle.iter().flat_map(|x| [x.0, x.1, x.2, x.3]).filter(|k| *k == 2).collect());
+            en!("literals()", d.literals(), oracle.iter().flat_map(|x| [x.0, x.1, x.2, x.3]).filter(|k| *k == 3).collect());
+            if d.variables().count() != 0 { fail(name, &hist[..=n], "variables() not empty".into()); }
+        }
         // other matcher kinds, one position at a time (the others Any) and combined: negation of a constant / of
         // several constants, several constants, a closure, a term kind, Option, on s / p / o / g
         {
@@ -138,6 +161,24 @@ fn check_g<G: MutableGraph + Graph + Default>(name: &str, hist: &[(bool, Q)]) {
                 let gs: BTreeSet<Q> = got.iter().cloned().collect();
                 if gs != want || got.len() != want.len() { fail(name, &hist[..=n], format!("triples_matching {} = {:?} expected {:?}", $what, got, want)); }
             }}}
+            for x in quads().into_iter().filter(|x| x.0 == 0) {
+                let c = d.contains(term(x.1), term(x.2), term(x.3)).unwrap();
+                if c != oracle.contains(&x) { fail(name, &hist[..=n], format!("contains({:?}) = {} expected {}", x, c, oracle.contains(&x))); }
+            }
+            macro_rules! en { ($what:expr, $it:expr, $want:expr) => {{
+                let got: Vec<usize> = $it.map(|t| tnum(&t.unwrap().as_simple())).collect();
+                let gs: BTreeSet<usize> = got.iter().cloned().collect();
+                let want: BTreeSet<usize> = $want;
+                if gs != want { fail(name, &hist[..=n], format!("{} = {:?} expected the set {:?}", $what, got, want)); }
+            }}}
+            en!("subjects()", d.subjects(), oracle.iter().map(|x| x.1).collect());
+            en!("predicates()", d.predicates(), oracle.iter().map(|x| x.2).collect());
+            en!("objects()", d.objects(), oracle.iter().map(|x| x.3).collect());
+            en!("iris()", d.iris(), oracle.iter().flat_map(|x| [x.1, x.2, x.3]).filter(|k| *k == 1).collect());
+            en!("blank_nodes()", d.blank_nodes(), oracle.iter().flat_map(|x| [x.1, x.2, x.3]).filter(|k| *k == 2).collect());
+            en!("literals()", d.literals(), oracle.iter().flat_map(|x| [x.1, x.2, x.3]).filter(|k| *k == 3).collect());
+            let all: Vec<Q> = d.triples().map(|x| { let x = x.unwrap(); let r = (0, tnum(&x.s().as_simple()), tnum(&x.p().as_simple()), tnum(&x.o().as_simple())); r }).collect();
+            if all.len() != oracle.len() || all.iter().cloned().collect::<BTreeSet<Q>>() != oracle { fail(name, &hist[..=n], format!("triples() = {:?} expected {:?}", all, oracle)); }
             let (qs, qo) = (q.1, q.3);
             mk!("(Not([s]),*,*)", Not([term(qs)]), Any, Any, |x: &Q| x.1 != qs);
             mk!("(*,Not([p]),*)", Any, Not([term(q.2)]), Any, |x: &Q| x.2 != q.2);
